@@ -103,6 +103,28 @@ def points(tier: str) -> List[dict]:
         P.append({"spec": {"model": "latin_rc", "n": n}, "count": LATIN[n]})
     for n, c in ((5, None), (6, None), (7, 3), (8, 1)) + (((9, 0),) if th else ()):
         P.append({"spec": {"model": "qg5", "n": n, "sym": True, "cfg": {"var_h": 1}}, "count": c, "fix_var_h": 1})
+    for n in (4, 5):
+        P.append({"spec": {"model": "qg5", "n": n, "sym": False, "cfg": {"var_h": 1}, "brute": True}, "count": "brute", "fix_var_h": 1})
+        P.append({"spec": {"model": "qg5", "n": n, "sym": True, "cfg": {"var_h": 1}, "brute": True}, "sat": "brute", "fix_var_h": 1})
+    g2 = lcg(11)
+    for i in range(4 if not th else 12):
+        n = 4
+        colors = [[0, 1, 2, 3], [1, 2, 3, 4], [2, 3, 4, 5]][next(g2) % 3]
+        base = [[colors[(r + c) % n] for c in range(n)] for r in range(n)]
+        givens = [[base[r][c] if next(g2) % 3 == 0 else -9 for c in range(n)] for r in range(n)]
+        P.append({"spec": {"model": "latin", "n": n, "colors": colors, "givens": givens, "brute": True}, "count": "brute"})
+    # known valid objects for models without a cheap exhaustive reference
+    fano = [[1, 1, 1, 0, 0, 0, 0], [1, 0, 0, 1, 1, 0, 0], [1, 0, 0, 0, 0, 1, 1], [0, 1, 0, 1, 0, 1, 0], [0, 1, 0, 0, 1, 0, 1],
+            [0, 0, 1, 1, 0, 0, 1], [0, 0, 1, 0, 1, 1, 0]]
+    fano_vec = [v for row in fano for v in row]
+    pairs = [(a, b) for a in range(7) for b in range(a + 1, 7)]
+    fano_vec += [fano[a][j] * fano[b][j] for a, b in pairs for j in range(7)]
+    P.append({"spec": {"model": "bibd", "v": 7, "b": 7, "r": 3, "k": 3, "l": 1, "sym": False, "fix_solution": fano_vec}, "count": 1, "accepts": True})
+    schur13 = {1: 0, 4: 0, 10: 0, 13: 0, 2: 1, 3: 1, 11: 1, 12: 1, 5: 2, 6: 2, 7: 2, 8: 2, 9: 2}
+    P.append({"spec": {"model": "schur", "n": 13, "sym": False, "fix_solution": [1 if schur13[x] == k else 0 for x in range(1, 14) for k in range(3)]}, "count": 1, "accepts": True})
+    for n in (7, 12, 30, 60):
+        ms = [n - 4, 2, 1] + [0] * (n - 7) + [1, 0, 0, 0]
+        P.append({"spec": {"model": "magic_sequence", "n": n, "fix_solution": ms}, "count": 1, "accepts": True})
     for n in (5, 6) + ((7,) if th else ()):
         P.append({"spec": {"model": "qg5", "n": n, "sym": False, "cfg": {"var_h": 1}, "keep_solutions": True}, "count": None, "fix_var_h": 1,
                   "superset_of": {"model": "qg5", "n": n, "sym": True, "cfg": {"var_h": 1}, "keep_solutions": True}})
